@@ -204,6 +204,7 @@ class QConn:
         self.cmac, self.smac = cmac, smac
         self.t = t0
         self.items, self.expect, self.expect_idx, self.dirs = [], [], [], []
+        self.item_gen, self.item_short, self.item_pn = [], [], []
         klen, h, kind = SUITES[suite]
         n = h().digest_size
         self.sec = {k: rng.randbytes(n) for k in ("chs", "shs", "cap", "sap")}
@@ -251,7 +252,8 @@ class QConn:
         same_tick = (self.items and getattr(self, "_last_dir", None) == (not from_server)
                      and not getattr(self, "_tick_chain", False) and self.rng.random() < 0.08)
         self._tick_chain = bool(same_tick)             # never three datagrams on one tick (two would share a direction)
-        self.t += dt if dt is not None else (0 if same_tick else self.rng.randrange(200, 40_000))
+        burst = self.rng.random() < 0.12                # back-to-back datagrams a few microseconds apart
+        self.t += dt if dt is not None else (0 if same_tick else (self.rng.randrange(1, 10) if burst else self.rng.randrange(200, 40_000)))
         self._last_dir = bool(from_server)
         if from_server:
             f = wire.udp_frame(self.smac, self.cmac, self.sip, self.cip, self.sport, self.cport, payload)
@@ -259,6 +261,10 @@ class QConn:
             f = wire.udp_frame(self.cmac, self.smac, self.cip, self.sip, self.cport, self.sport, payload)
         self.items.append(("pkt", self.t, f))
         self.dirs.append(bool(from_server))
+        # bookkeeping for `reorder`: key generation of this direction and whether the datagram is a lone 1-RTT packet
+        self.item_gen.append(self.gen[1 if from_server else 0])
+        self.item_short.append(bool(payload) and not payload[0] & 0x80)
+        self.item_pn.append(getattr(self, "last_short", None))
         if stream_bytes:
             self.expect.append((self.t, bool(from_server), stream_bytes))
             self.expect_idx.append(len(self.items) - 1)
@@ -283,8 +289,11 @@ class QConn:
         keys = self.gens[d][self.gen[d]]
         self.sent_gen[d] = self.gen[d]
         dcid = self.dcid_for_server if from_server else self.dcid_for_client
-        self.cur.append(short_pkt(keys, dcid, self.nextpn("sa" if from_server else "ca", jump), pnlen, frames,
-                                  phase=self.gen[d] & 1, spin=self.rng.randrange(2)))
+        sp = "sa" if from_server else "ca"
+        prev = self.pn.get(sp, 0) - 1                       # largest packet number of this space sent so far (-1: none)
+        pn = self.nextpn(sp, jump)
+        self.last_short = (pn, pnlen, prev)
+        self.cur.append(short_pkt(keys, dcid, pn, pnlen, frames, phase=self.gen[d] & 1, spin=self.rng.randrange(2)))
 
     def key_update(self, from_server, follow=False):
         """the given side initiates a key update: its next packet uses the next generation (RFC 9001 §6);
@@ -346,7 +355,8 @@ class QConn:
             # zero-length-CID server does not also own 1–2 byte CIDs: that combination is undecidable for any passive
             # observer without trial decryption and is excluded (DESIGN §8.2, limitation).
             new_scid = rng.randbytes(len(self.scid_s) if len(self.scid_s) >= 4 else 8)
-            token = rng.randbytes(rng.randrange(8, 40))
+            # tokens of 64 bytes and more need a two-byte Token Length varint in the client's next Initial
+            token = rng.randbytes(rng.choice([rng.randrange(8, 40), 63, 64, 65, rng.randrange(66, 300)]))
             self.cur.append(retry_pkt(self.dcid0, self.scid_c, new_scid, token))
             self.flush(1)
             self.cur_dcid_c = new_scid
@@ -390,6 +400,31 @@ class QConn:
         self.follow_key_update(from_server) if self.rng.random() < 0.7 else None
         self.q_1rtt(from_server, frames, pnlen=pnlen, jump=jump)
         self.flush(from_server, b"".join(c[2] for c in chunks), trailing_zeros=trailing_zeros)
+
+    def reorder(self, rng, p=0.25):
+        """network reordering inside a burst: two consecutive 1-RTT datagrams of one direction that both carry stream data
+        and use the same key generation are captured in the opposite order (the capture clock keeps increasing).
+        RFC 9000 13: packets may be reordered; the receiver's packet-number decoding copes within half the window."""
+        k, n = 0, 0
+        while k + 1 < len(self.items):
+            a, b = self.item_pn[k], self.item_pn[k + 1]
+            # both packets must still decode in the new order (RFC 9000 A.3): the overtaken one against the overtaker as
+            # largest, the overtaker against what was largest before either — each within half its encoding window
+            ok = (a is not None and b is not None and b[0] - a[0] < (1 << (8 * a[1] - 1)) - 1
+                  and b[0] - a[2] < (1 << (8 * b[1] - 1)) - 1)
+            if (ok and self.dirs[k] == self.dirs[k + 1] and self.item_short[k] and self.item_short[k + 1]
+                    and self.item_gen[k] == self.item_gen[k + 1] and k in self.expect_idx and k + 1 in self.expect_idx
+                    and rng.random() < p):
+                (_, ta, fa), (_, tb, fb) = self.items[k], self.items[k + 1]
+                self.items[k], self.items[k + 1] = ("pkt", ta, fb), ("pkt", tb, fa)
+                ia, ib = self.expect_idx.index(k), self.expect_idx.index(k + 1)
+                (_, da, xa), (_, db, xb) = self.expect[ia], self.expect[ib]
+                self.expect[ia], self.expect[ib] = (ta, db, xb), (tb, da, xa)
+                n += 1
+                k += 2
+            else:
+                k += 1
+        return n
 
     def new_cid(self, from_server, cid_len=None):
         """issue a connection ID and have the peer switch to it"""
@@ -445,6 +480,7 @@ def random_connection(rng, idx=0, v6=None, suite=None, features=None):
     f.setdefault("v6", rng.random() < 0.3 if v6 is None else v6)
     f.setdefault("prefix_cid", rng.random() < 0.08 and not f["retry"])
     f.setdefault("long", False)
+    f.setdefault("reorder", rng.random() < 0.2)
     offer = list(SUITES)
     if f["offer_order"] == "suite-first":
         offer = [f["suite"]] + [c for c in offer if c != f["suite"]]
@@ -506,4 +542,6 @@ def random_connection(rng, idx=0, v6=None, suite=None, features=None):
               other_after=random_other_frames(rng, c, d) if rng.random() < 0.3 else b"",
               pnlen=pnlen, jump=jump, explicit_len=rng.random() < 0.7,
               trailing_zeros=0, w=rng.choice([None, None, 2, 4, 8]))
+    if f["reorder"]:
+        f["reordered"] = c.reorder(rng, p=0.6 if (features or {}).get("reorder") else 0.25)
     return c, f
